@@ -8,6 +8,10 @@ fn usage() -> ! {
 }
 
 fn main() {
+    // error values of anyhow / cosmwasm-std capture a backtrace when these are set, which is slow
+    // and takes a process-wide lock; the checks never look at backtraces
+    std::env::set_var("RUST_BACKTRACE", "0");
+    std::env::set_var("RUST_LIB_BACKTRACE", "0");
     let args: Vec<String> = std::env::args().skip(1).collect();
     if args.is_empty() {
         usage();
@@ -63,6 +67,7 @@ fn main() {
     let code = match id.as_str() {
         "C06" => run_check::<engines::kv::KvCheck>(opts),
         "C07" => run_check::<engines::prefix::PrefixCheck>(opts),
+        "C18" => run_check::<engines::addr::AddrCheck>(opts),
         _ => {
             eprintln!("unknown property id {}", id);
             2
